@@ -14,6 +14,7 @@ E = {
  "E4": ("harness/e4.py", "life-cycle: histories of operations (calls, failing calls, setup, executors, re-runs, deep copies, compose, config reload, caching runs, restarts) on real DAG instances; every step validated by TLC against spec/Lifecycle.tla through spec/LifecycleTrace.tla"),
  "E2": ("harness/e2.py", "recorder and dataflow: generated describing functions (all argument forms, indexing, unpack_to, operators, and_/or_/not_, return shapes, nested DAGs, activation flags) run on the real library under random configurations; TLC evaluates the reference semantics spec/Dataflow.tla on every observation (spec/DfCheck.tla) and explores all schedules of the abstract results map (spec/DataflowMC.tla)"),
  "E2C": ("harness/e2c.py", "compose: spec/Compose.tla evaluated by TLC (spec/CompCheck.tla) on compositions of generated flat programs run on the real library"),
+ "E5": ("harness/e5.py", "concurrency of the library itself: spec/BuildLock.tla model-checked (both readings of 'am I describing?'), build scenarios with real threads validated as traces (spec/BuildLockTrace.tla), simultaneous calls from several threads and gathered awaits of one AsyncDAG compared with spec/Dataflow.tla, loop-liveness probe"),
  "E3": ("harness/e3.py", "graph algebra: spec/Selection.tla and spec/CompoundPriority.tla evaluated by TLC (spec/SelCheck.tla, spec/CpCheck.tla) on every observation of executor / setup / call selections, debug settings, priority tables and mc=1 orders made on the real library"),
 }
 CHECKS = {
@@ -42,6 +43,14 @@ CHECKS = {
         "spec/Compose.tla defines, for a flat program, the closure the outputs need (stopping at the inputs), the caller errors and the evaluation with the supplied values substituted; thousands of (program, inputs, outputs, values) cases are run through compose on the real library and TLC compares error class, returned value and executed call sites with the specification (spec/CompCheck.tla); the original DAG is run before and after and must be unchanged",
         "trusted: TLC, the node_enter hook; bounds: flat generated programs up to 6 call sites, 0-3 inputs or Ellipsis, 1-3 outputs, id and node-reference aliases",
         "TLA+ specification of compose as executable oracle (TLC) over generated cases observed on the real library"),
+ "C16": ("E5",
+        "TLC model-checks spec/BuildLock.tla (builders pausing between call sites, DAG callers, callers of decorated functions; the invariants hold when 'describing' means 'this thread holds the build lock' and fail for the lock-state test the pinned tree used); every scenario 'a builder paused before call site p while other threads call a DAG / call a decorated function / start another build' is run with real threads and its trace validated by TLC (spec/BuildLockTrace.tla); 2-4 threads calling one DAG simultaneously with different arguments are compared with the reference semantics (spec/DfCheck.tla)",
+        "trusted: TLC, pause points inside user code as the interleaving granularity; instruction-level races inside tawazi are not reachable by this technique (DESIGN section 9)",
+        "TLA+ model checking of the build lock + TLC trace validation of thread scenarios + reference-semantics check of simultaneous calls"),
+ "C17": ("E5",
+        "the same generated programs run as DAG and AsyncDAG are both compared with the reference semantics by TLC (engine E2: value and executed call sites; engine E4: setup results over histories); 2-4 awaits of one AsyncDAG gathered in one loop with different arguments are each compared with the reference semantics; a sibling coroutine must be served while async-thread nodes are running",
+        "trusted: TLC, the hooks; loop liveness is checked for DAGs whose nodes all use the async-thread resource; completion orders of gathered awaits are randomised, not enumerated",
+        "TLA+ reference semantics as oracle (TLC) for sync/async equivalence and gathered awaits + loop-liveness probe"),
 }
 checks = []
 for p in sorted(CHECKS):
